@@ -96,7 +96,7 @@ func (st *c14State) drawNode(i int, lowVersion bool) *specs.DeviceNode {
 	host := hostPaths[src.Intn(len(hostPaths))]
 	h := st.hosts[host]
 	dn := &specs.DeviceNode{Path: host}
-	state := src.Intn(6)
+	state := src.Intn(7)
 	if lowVersion && state == 3 {
 		state = 0 // hostPath needs cdiVersion 0.5.0
 	}
@@ -115,6 +115,9 @@ func (st *c14State) drawNode(i int, lowVersion bool) *specs.DeviceNode {
 		dn.HostPath = host
 	case 4: // permissions
 		dn.Permissions = []string{"r", "rw", "rwm"}[src.Intn(3)]
+	case 6: // numbers given, type left to the host: the numbers must be kept
+		dn.Major = int64(1 + src.Intn(200))
+		dn.Minor = int64(src.Intn(32))
 	case 5: // uid/gid/fileMode
 		u := uint32(1000 + src.Intn(3))
 		dn.UID = &u
